@@ -871,9 +871,21 @@ pub fn chunk(n: usize, k: usize, m: usize) -> std::ops::Range<usize> {
 
 /// Build a case of the property's first random stage from raw bytes.
 pub fn case_from_bytes<P: Property>(p: &P, data: &[u8]) -> Option<P::Case> {
-    let strat = p.plan(Tier::Quick).into_iter().find_map(|s| match s {
-        Stage::Random { strategy, .. } => Some(strategy()),
-        _ => None,
+    use std::any::Any;
+    thread_local! {
+        // the property's strategy is built once per thread and reused for every input
+        static STRATS: RefCell<HashMap<&'static str, Box<dyn Any>>> = RefCell::new(HashMap::new());
+    }
+    let strat: BoxedStrategy<P::Case> = STRATS.with(|m| {
+        let mut m = m.borrow_mut();
+        if !m.contains_key(p.id()) {
+            let s = p.plan(Tier::Quick).into_iter().find_map(|s| match s {
+                Stage::Random { strategy, .. } => Some(strategy()),
+                _ => None,
+            })?;
+            m.insert(p.id(), Box::new(s));
+        }
+        m.get(p.id()).and_then(|b| b.downcast_ref::<BoxedStrategy<P::Case>>()).cloned()
     })?;
     let cfg = Config { failure_persistence: None, ..Config::default() };
     // (the vendored proptest continues an exhausted pass-through stream pseudo-randomly)
